@@ -126,7 +126,9 @@ impl Profile {
             }
             "C05" => {
                 p.name = "C05";
-                p.p_variants = 25;
+                p.p_uniform = 35;
+                p.prefill = (1, 4);
+                p.p_variants = 40;
                 p.p_multinode = 18;
                 p.p_min_time = 25;
                 p.p_worker_time_limit = 40;
